@@ -85,7 +85,7 @@ theorem moveField_errKeeps {s : State} (hI : InvCore s) (h g : Nat) (n : Name) (
       | ok a s1 =>
         -- after the copy the source is still linked under the same name, so the drop goes through
         have hI1 : InvCore s1 := by have := copyField_inv hI h g n hg; rw [hc] at this; exact this
-        obtain ⟨hd0, g0, hh0, ho0, hcol0⟩ := fieldName_ok hI hk
+        obtain ⟨hd0, g0, hh0, ho0, hlk0⟩ := fieldName_ok hI hk
         have hshape : (∀ e, e ∈ s.cols → e ∈ s1.cols) ∧ (∀ e, e ∈ s.links → e ∈ s1.links) ∧
             (∀ (j : Nat) (x : Handle), s.handles[j]? = some x → s1.handles[j]? = some x) := by
           unfold copyField at hc
@@ -93,17 +93,23 @@ theorem moveField_errKeeps {s : State} (hI : InvCore s) (h g : Nat) (n : Name) (
           · cases hc
           · have := addField_ok_shape hc
             exact ⟨this.2.2.2.2.2.2.1, this.2.2.2.2.2.1, this.2.2.2.2.1⟩
-        have hh := (ensureValid_ok hv).1
+        obtain ⟨hh, hcl, hvv⟩ := ensureValid_ok hv
         rw [hh] at hh0; cases hh0
-        have hcol1 := hshape.1 _ hcol0
-        obtain ⟨hd1, h11, h12, h13, _, _, h16⟩ := hI1.sameObj _ _ hcol1
+        have hlk1 := hshape.2.1 _ hlk0
+        have h11 := hshape.2.2 h hd hh
         have hfn1 : fieldName s1 h = .ok k := by
           unfold fieldName ensureValid
-          simp only [h11, h13, h12, Bool.false_eq_true, if_false, if_true]
-          rw [(nameOfVal_eq_some hI1.oidInj).2 ⟨g0, h16⟩]
+          simp only [h11, hcl, hvv, Bool.false_eq_true, if_false, if_true]
+          rw [(nameOfVal_eq_some hI1.oidInj).2 ⟨g0, hlk1⟩]
         simp only [Res.andThen, ho0, hfn1]
-        rw [dropField_ok hI1 (mem_keys_of_mem hcol1)]
+        rw [dropField_ok hI1 ((hI1.sameKeys _).2 (mem_keys_of_mem hlk1))]
         exact errKeeps_ok _ _ _
+
+theorem viewField_errKeeps (v : Variant) (s : State) (h : Nat) : ErrKeeps s (viewField v s h) := by
+  unfold viewField
+  split
+  · exact errKeeps_err _ _
+  · exact errKeeps_ok _ _ _
 
 theorem field_ops_errKeeps {s : State} (hI : Inv s) (op : Op) (hf : op.fieldLevel = true) (hz : op.srcLinked s) :
     ErrKeeps s (step .repaired s op) := by
@@ -167,6 +173,10 @@ theorem field_ops_errKeeps {s : State} (hI : Inv s) (op : Op) (hf : op.fieldLeve
   | deleteFrame a b c => simp [Op.fieldLevel] at hf
   | moveFrame a b c d => simp [Op.fieldLevel] at hf
   | reopen a => simp [Op.fieldLevel] at hf
+  | view r =>
+    simp only [step, withField]; split
+    · exact errKeeps_err _ _
+    · exact (viewField_errKeeps _ _ _).void
 
 /-! ### dataset-level calls -/
 
@@ -422,5 +432,6 @@ theorem step_errKeeps {s : State} (hI : Inv s) (op : Op) (hz : op.srcLinked s) :
       · exact errKeeps_err _ _
       · next sg hg => exact moveFrame_errKeeps hI sd sg d fn sfn (getFrame_ok hI hg).1
     | reopen d => simp only [step]; exact errKeeps_ok _ _ _
+    | view r => simp [Op.fieldLevel] at hf
 
 end Exetera.Catalogue
